@@ -23,9 +23,11 @@ namespace VOPy.Drv.C11
 open VOPy VOPy.Proto VOPy.Pess
 
 /-- Does the float mirror (`…f` ops) model the repaired `line_seg_pt_intersect_at_dim` that snaps the
-target coordinate (`point_on_line[target_dim] = target_pt[target_dim]`)?  `false` = the code as it
-stands in /repo; switch to `true` when the fix lands. -/
-def mirrorSnap : Bool := false
+target coordinate (`point_on_line[target_dim] = target_pt[target_dim]`)?  `true` = /repo since the fix
+commit 2e45ea6 (`fix: line_seg_pt_intersect_at_dim keeps the intersection exactly on the target
+hyperplane`); `false` = the original code, on which the correspondence check raises
+`complete2x2-float-rounding`. -/
+def mirrorSnap : Bool := true
 
 def fmtOptVec : Option Vec → String
   | some v => fmtVec v
